@@ -74,6 +74,11 @@ type caseDesc struct {
 	Query     int    `json:"query"`
 	QID       uint16 `json:"qid"`
 	Garbage   int    `json:"garbage"`
+	// shared-Forward workload: the tag subsets for which executables were created
+	// on the same Forward before this call (empty = ""), and the one this call goes
+	// through (-1 = the plugin's own Exec over the full list)
+	History [][]int `json:"history,omitempty"`
+	ExecIdx int     `json:"exec_idx,omitempty"`
 }
 
 func clampC(c int) int {
@@ -139,6 +144,9 @@ func (cd *caseDesc) fingerprint() string {
 		sb.WriteString(outcomeName[o][:2])
 	}
 	fmt.Fprintf(&sb, "|ord%v|x%d", cd.Order, cd.Cancel)
+	if len(cd.History) > 0 {
+		fmt.Fprintf(&sb, "|h%v@%d", cd.History, cd.ExecIdx)
+	}
 	return sb.String()
 }
 
@@ -593,7 +601,7 @@ var caseLogMu sync.Mutex
 
 // runCase executes one scripted call and judges it. The returned caseRun is
 // finalised by the caller at the next quiescent point (finalize).
-func runCase(cd *caseDesc, fwd *fastforward.Forward, ups []*memUp) *caseRun {
+func runCase(cd *caseDesc, fwd *fastforward.Forward, ups []*memUp, pre sequence.Executable) *caseRun {
 	n := cd.n()
 	list := cd.list()
 	c := &caseRun{cd: cd, delivered: map[int]int{}, notify: make(chan struct{}, 1), start: -1}
@@ -624,7 +632,12 @@ func runCase(cd *caseDesc, fwd *fastforward.Forward, ups []*memUp) *caseRun {
 		u.cs.Store(c)
 	}
 	var exec sequence.Executable = fwd
-	if cd.Subset != nil || cd.EmptyArgs {
+	if pre != nil {
+		exec = pre
+		if cd.Subset != nil || cd.EmptyArgs {
+			rep.Count("calls_through_tag_subsets", 1)
+		}
+	} else if cd.Subset != nil || cd.EmptyArgs {
 		var args []string
 		if !cd.EmptyArgs {
 			for _, i := range cd.Subset {
@@ -741,6 +754,12 @@ func runCase(cd *caseDesc, fwd *fastforward.Forward, ups []*memUp) *caseRun {
 		}
 		if n > len(list) {
 			k += "-wrap"
+		}
+		if len(cd.History) > 0 {
+			k = "queried-set-not-a-cyclic-run-shared-forward"
+			if cd.Subset != nil {
+				k += "-tag-subset"
+			}
 		}
 		c.violate(k, fmt.Sprintf("the upstreams that received the query %v are not %d cyclically consecutive positions of the list %v", queried, n, list), nil)
 	}
